@@ -19,6 +19,10 @@ type ResetCase struct {
 	Cfg   PCfg  `json:"cfg"`
 	Ops   []POp `json:"ops"`
 	Split int   `json:"split"`
+	// ExtraResets: the used parser is Reset(nil) this many times between H1
+	// and the Reset call of the case (an instance that lives through
+	// hundreds of thousands of streams).
+	ExtraResets int `json:"extraResets,omitempty"`
 }
 
 type resetVerdict struct {
@@ -60,6 +64,14 @@ func checkResetCase(c ResetCase) (v resetVerdict) {
 		for i, op := range ops {
 			if i == from {
 				mark = len(x.results)
+				if from > 0 && !x.dead {
+					for k := 0; k < c.ExtraResets; k++ {
+						if err := x.p.Reset(nil); err != nil {
+							x.report("C13", "Reset(nil) number %d in a row returned %v", k+1, err)
+							break
+						}
+					}
+				}
 			}
 			x.step(op)
 		}
@@ -356,6 +368,77 @@ func genAbandonCase(t *rapid.T, cfg PCfg, x *parserExec) (ResetCase, *parserExec
 		x.step(POp{Op: "parse"})
 	}
 	return ResetCase{Cfg: cfg, Ops: x.Case().Ops, Split: split}, x, h1State
+}
+
+// TestC13ManyResets: the abandoned-stream cases on small tables, with the used
+// parser Reset 255 ... 196607 more times before it is compared with a new one
+// (counters and generation marks of 8 and 16 bits wrap in between).
+func TestC13ManyResets(t *testing.T) {
+	st := statsFor("C13")
+	for _, kind := range kindsFromEnv(Kinds) {
+		kind := kind
+		t.Run(kind, func(t *testing.T) {
+			rapid.Check(t, func(t *rapid.T) {
+				cfg := genPCfg(t, kind, 300)
+				hb := rapid.SampledFrom([]int{10, 8, 6, 4}).Draw(t, "mrHashBits")
+				switch kind {
+				case "HP", "BHP", "BUP":
+					cfg.HashBits = hb
+					if cfg.InputLen < 4 {
+						cfg.InputLen = rapid.IntRange(4, 6).Draw(t, "mrInputLen")
+					}
+					if kind == "BUP" {
+						cfg.BucketSize = rapid.IntRange(1, 6).Draw(t, "mrBucket")
+					}
+				case "DHP", "BDHP":
+					cfg.HashBits1, cfg.HashBits2 = hb, hb
+					cfg.InputLen1 = rapid.IntRange(3, 5).Draw(t, "mrIL1")
+					cfg.InputLen2 = rapid.IntRange(cfg.InputLen1+1, 8).Draw(t, "mrIL2")
+				}
+				if cfg.BufferSize != 0 && cfg.BufferSize < 64 {
+					cfg.BufferSize += 64
+				}
+				if cfg.BufferSize > 4096 || cfg.BufferSize == 0 {
+					cfg.BufferSize = 4096 // Reset sweeps structures sized by the buffer
+				}
+				if cfg.WindowSize > cfg.BufferSize {
+					cfg.WindowSize = cfg.BufferSize
+				}
+				if cfg.BlockSize != 0 && cfg.BlockSize < 64 {
+					cfg.BlockSize = 64
+				}
+				if cfg.ShrinkSize >= cfg.BufferSize {
+					cfg.ShrinkSize = 0
+				}
+				x, err := newParserExec(cfg)
+				if err != nil {
+					st.class("config-rejected:" + kind)
+					return
+				}
+				c, x, h1State := genAbandonCase(t, cfg, x)
+				if len(c.Ops) == 0 {
+					st.abort(kind)
+					return
+				}
+				// the Reset call of the case comes on top: totals of 2^k-1, 2^k, 2^k+1
+				c.ExtraResets = rapid.SampledFrom([]int{1 << 17, 1 << 16, 1 << 8, 3 << 16, 1 << 9}).Draw(t, "extraResets") -
+					rapid.IntRange(0, 2).Draw(t, "extraResetsBelow")
+				beginCase("C13", "manyresets-"+kind, func() any { return c })
+				defer endCase()
+				v := checkResetCase(c)
+				endCase()
+				if v.bad {
+					recordFailure("C13", "manyresets-"+kind, c, v.msg)
+					t.Fatalf("C13 violated (%s, %d Resets in between): %s", kind, c.ExtraResets, v.msg)
+				}
+				if v.dead || v.rejected {
+					st.abort(kind)
+					return
+				}
+				st.eval([]string{"kind:" + kind, "many-resets"}, h1State && v.h2Matches > 0, hashJSON(c), "manyresets-"+kind, func() any { return c })
+			})
+		})
+	}
 }
 
 func TestC13(t *testing.T) {
